@@ -2,7 +2,7 @@
    coefficients are coniclifts Expressions commutes with substituting values for the Variables. *)
 From Coq Require Import Reals List Bool Arith ZArith QArith Qreals Lra.
 From SageVerif Require Import Math.RVec Model.Expr Model.Signomial Model.SymSig
-                              Proofs.ExprSpec Proofs.SigSpec Proofs.SymCorrSpec.
+                              Proofs.ExprSpec Proofs.SigSpec Proofs.SymCorrSpec Proofs.SigLemmas.
 Import ListNotations.
 Open Scope R_scope.
 
@@ -21,8 +21,19 @@ Definition iszero_iff_identically_zero_stmt : Prop :=
     (s_iszero e = true <-> forall rho, value rho e = 0).
 
 (* without_zeros removes exactly the terms with identically-zero coefficient (or returns the
-   single-term zero function when all are), and never changes the function *)
+   single-term zero function when all are), and never changes the function.  Stated for what the
+   constructor produces: canonical (rounded) pairwise distinct rows.  (A first version of this
+   statement without the canonical-rows hypotheses was refuted in Coq: SymSigOps.without_zeros_spec_s_stmt_false.) *)
 Definition without_zeros_spec_s_stmt : Prop :=
+  forall n chi rho f, character n chi -> wfs n f -> NoDupR (map fst f) ->
+    Forall (fun t => round_row (fst t) = fst t) f ->
+    sevalchi chi rho (s_without_zeros n f) = sevalchi chi rho f /\
+    (forall t, In t (s_without_zeros n f) -> (2 <= length f)%nat ->
+       (s_iszero (snd t) = false /\ In t f) \/ (s_without_zeros n f = s_mk [(repeat 0%Q n, sconst 0%Q)])).
+
+(* REFUTED (kept for the record): the same statement without canonical, pairwise distinct rows.  wfs only asks
+   for rows on the grid up to Qeq, so the constructor may re-round or merge rows. *)
+Definition without_zeros_spec_s_loose_stmt : Prop :=
   forall n chi rho f, character n chi -> wfs n f ->
     sevalchi chi rho (s_without_zeros n f) = sevalchi chi rho f /\
     (forall t, In t (s_without_zeros n f) -> (2 <= length f)%nat ->
